@@ -714,6 +714,10 @@ Section Norm.
     exfalso. apply D. lia.
   Qed.
 
+  Lemma mstore8_mstore8_same m a a' v x :
+    mstore8 (mstore8 m a v) a' v x = mstore8 (mstore8 m a' v) a v x.
+  Proof. unfold mstore8. destruct (x =? a) eqn:E1; destruct (x =? a') eqn:E2; reflexivity. Qed.
+
   Definition store_w (w : bool) (m : memory) (a v : Z) : memory := if w then mstore m a v else mstore8 m a v.
 
   Lemma ins_store_sound w a v m : msort m = true -> wsort a = true -> wsort v = true ->
@@ -741,15 +745,47 @@ Section Norm.
       + apply mstore8_mstore_comm. exact DS.
     - pose proof Hm as Hm'. cbn [msort] in Hm. apply andb_true_iff in Hm. destruct Hm as [Hm Hv1].
       apply andb_true_iff in Hm. destruct Hm as [Hm Ha1]. destruct (IH Hm) as [IS IE].
-      cbn [ins_store]. destruct (disj (if w then 32 else 1) a 1 a1 && addr_lt a a1) eqn:D; [|apply T; exact Hm'].
-      apply andb_true_iff in D. destruct D as [D _].
+      cbn [ins_store].
+      destruct ((disj (if w then 32 else 1) a 1 a1 && addr_lt a a1) || (negb w && term_eqb v v1 && olt a a1)) eqn:D;
+        [|apply T; exact Hm'].
       split; [cbn [msort]; rewrite IS, Ha1, Hv1; reflexivity|].
-      intros x. cbn [evalm]. pose proof (disj_sound _ _ _ _ D Ha Ha1 x) as DS.
+      intros x. cbn [evalm].
       transitivity (mstore8 (store_w w (evalm r m0) (ev a) (ev v)) (ev a1) (ev v1) x).
       { unfold mstore8. rewrite IE. reflexivity. }
-      destruct w; cbn [store_w].
-      + apply mstore_mstore8_comm. exact DS.
-      + apply mstore8_mstore8_comm. exact DS.
+      apply orb_true_iff in D. destruct D as [D|D].
+      + apply andb_true_iff in D. destruct D as [D _].
+        pose proof (disj_sound _ _ _ _ D Ha Ha1 x) as DS.
+        destruct w; cbn [store_w].
+        * apply mstore_mstore8_comm. exact DS.
+        * apply mstore8_mstore8_comm. exact DS.
+      + apply andb_true_iff in D. destruct D as [D _]. apply andb_true_iff in D. destruct D as [Dw Dv].
+        destruct w; [discriminate Dw|]. apply term_eqb_eq in Dv. subst v1. cbn [store_w].
+        apply mstore8_mstore8_same.
+  Qed.
+
+  Lemma ins_sstore_sound k v s : ssort s = true -> wsort k = true -> wsort v = true ->
+    ssort (ins_sstore k v s) = true /\
+    (forall x, evals r (ins_sstore k v s) x = sstore (evals r s) (ev k) (ev v) x).
+  Proof.
+    intros Hs Hk Hv.
+    assert (T : forall s0, ssort s0 = true ->
+                ssort (SStore s0 k v) = true /\ (forall x, evals r (SStore s0 k v) x = sstore (evals r s0) (ev k) (ev v) x)).
+    { intros s0 H0. cbn [ssort evals]. rewrite H0, Hk, Hv. split; reflexivity. }
+    induction s as [z|n0|k0|k0|k0 a1 _|o a1 _|o a1 _ a2 _|o a1 _ a2 _ a3 _|m0 _ a1 _|s0 _ k0 _|m0 _ a1 _ a2 _
+                   | |m0 _ a1 _ v1 _|m0 _ a1 _ v1 _| |s0 IH k0 _ v1 _]; try discriminate Hs.
+    - cbn [ins_sstore]. apply T. reflexivity.
+    - pose proof Hs as Hs'. cbn [ssort] in Hs. apply andb_true_iff in Hs. destruct Hs as [Hs Hv1].
+      apply andb_true_iff in Hs. destruct Hs as [Hs Hk0]. destruct (IH Hs) as [IS IE].
+      cbn [ins_sstore]. destruct ((keys_distinct k k0 || term_eqb v v1) && olt k k0) eqn:D; [|apply T; exact Hs'].
+      apply andb_true_iff in D. destruct D as [D _].
+      split; [cbn [ssort]; rewrite IS, Hk0, Hv1; reflexivity|].
+      intros x. cbn [evals]. unfold sstore at 1. rewrite IE. unfold sstore.
+      apply orb_true_iff in D. destruct D as [D|D].
+      + pose proof (keys_distinct_sound _ _ D Hk Hk0) as NE.
+        destruct (x =? ev k0) eqn:E1; destruct (x =? ev k) eqn:E2; try reflexivity.
+        apply Z.eqb_eq in E1, E2. exfalso. apply NE. congruence.
+      + apply term_eqb_eq in D. subst v1.
+        destruct (x =? ev k0) eqn:E1; destruct (x =? ev k) eqn:E2; reflexivity.
   Qed.
 
   Lemma s_mstore_ok m a v : msort m = true -> wsort a = true -> wsort v = true ->
@@ -793,9 +829,9 @@ Section Norm.
     (forall x, evals r (s_sstore s k v) x = sstore (evals r s) (ev k) (ev v) x).
   Proof.
     intros Hs Hk Hv. destruct (drop_same_s_sound k s Hs Hk) as [DS DE].
-    assert (D : ssort (SStore (drop_same_s k s) k v) = true /\
-                (forall x, evals r (SStore (drop_same_s k s) k v) x = sstore (evals r s) (ev k) (ev v) x)).
-    { cbn [ssort evals]. rewrite DS, Hk, Hv. split; [reflexivity|]. intros x. unfold sstore.
+    assert (D : ssort (ins_sstore k v (drop_same_s k s)) = true /\
+                (forall x, evals r (ins_sstore k v (drop_same_s k s)) x = sstore (evals r s) (ev k) (ev v) x)).
+    { destruct (ins_sstore_sound k v _ DS Hk Hv) as [S E]. split; [exact S|]. intros x. rewrite E. unfold sstore.
       destruct (Z.eqb_spec x (ev k)); [reflexivity|]. apply DE. assumption. }
     destruct v as [z|n0|k0|k0|k0 a1|o a1|o a1 a2|o a1 a2 a3|m0 a1|s0 k0|m0 a1 a2| |m0 a1 v0|m0 a1 v0| |s0 k0 v0];
       try exact D.
